@@ -375,7 +375,7 @@ func runC07(c *mc.Ctx) {
 	}
 	// structured longer inputs: k leading zeros then a fill, lengths up to 64 (512 for thorough)
 	var longs [][]byte
-	maxL := mc.Pick(c, 64, 512)
+	maxL := mc.Pick(c, 512, 2048)
 	for L := 3; L <= maxL; L++ {
 		for _, z := range []int{0, 1, 2, L - 1, L} {
 			if z > L {
